@@ -101,14 +101,8 @@ var errPeerGone = errors.New("peer closed the connection")
 
 func run(t *testing.T, cfg *Config, wd *vc.Watchdog) (res result) {
 	l := simkit.NewLog()
-	defer func() {
-		if p := recover(); p != nil {
-			res.BubbleErr = fmt.Sprint(p)
-			res.Evs = l.Events()
-		}
-	}()
 	r := vc.NewRand(cfg.Seed, "shipsim2-run", 0)
-	synctest.Test(t, func(t *testing.T) {
+	res.BubbleErr = simkit.Bubble(t, func(t *testing.T) {
 		activity := make(chan struct{}, 1)
 		poke := func() {
 			select {
@@ -359,6 +353,9 @@ func run(t *testing.T, cfg *Config, wd *vc.Watchdog) (res result) {
 		res.WantsToS, res.WantsToC = C.wants, S.wants
 		res.SentByS, res.SentByC = S.sentOrder, C.sentOrder
 	})
+	if res.BubbleErr == simkit.RaceOrFailNow {
+		res.BubbleErr = "" // the race report is in the GORACE log; the scenario itself is evaluated as usual
+	}
 	res.Evs = l.Events()
 	res.Sig = strings.Join(res.Choices, ",")
 	return res
